@@ -1069,12 +1069,17 @@ func TestC39(t *testing.T) {
 	kp := pool()
 	c39MarshalAlignment(t, c, kp)
 	c39Boundaries(t, c, kp)
+	c39RelatedSweep(t, c, kp)
+	c39DSAPem(t, c, kp)
 	c39Tool(t, c, kp)
 	rapid.Check(t, func(rt *rapid.T) {
-		if rapid.IntRange(0, 9).Draw(rt, "mode") == 0 {
+		switch rapid.IntRange(0, 9).Draw(rt, "mode") {
+		case 0:
 			c39MarshalRoundTrip(rt, c, kp)
-			return
+		case 1, 2, 3:
+			c39RelatedCase(rt, c, kp)
+		default:
+			c39Constructed(rt, c, kp)
 		}
-		c39Constructed(rt, c, kp)
 	})
 }
